@@ -616,3 +616,43 @@ func BranchesOn(v ssa.Value) []BoolBranch {
 	}
 	return out
 }
+
+// NilBranch describes an If comparing value V with nil.
+type NilBranch struct {
+	If       *ssa.If
+	OnNil    *ssa.BasicBlock
+	OnNonNil *ssa.BasicBlock
+}
+
+// BranchesOnNil returns the If instructions of v's function that compare v with nil.
+func BranchesOnNil(v ssa.Value) []NilBranch {
+	ins, ok := v.(ssa.Instruction)
+	if !ok {
+		return nil
+	}
+	var out []NilBranch
+	for _, b := range ins.Parent().Blocks {
+		if len(b.Instrs) == 0 {
+			continue
+		}
+		iff, ok := b.Instrs[len(b.Instrs)-1].(*ssa.If)
+		if !ok {
+			continue
+		}
+		r := RelOf(iff.Cond, true)
+		x, y := r.X, r.Y
+		if IsNilConst(x) {
+			x, y = y, x
+		}
+		if x != v || !IsNilConst(y) {
+			continue
+		}
+		switch r.Op {
+		case token.EQL:
+			out = append(out, NilBranch{iff, b.Succs[0], b.Succs[1]})
+		case token.NEQ:
+			out = append(out, NilBranch{iff, b.Succs[1], b.Succs[0]})
+		}
+	}
+	return out
+}
